@@ -15,6 +15,7 @@ Parametricity Recursive c02_disc.
 Parametricity Recursive c02_undisc.
 Parametricity Recursive fixpolb.
 Parametricity Recursive occfixb.
+Parametricity Recursive c02_tau.
 
 Definition extmap {A B} (f : A -> B) (x : ext A) : ext B :=
   match x with Fin v => Fin (f v) | NInf => NInf | PInf => PInf | NaN => NaN end.
@@ -87,6 +88,13 @@ Theorem occfixb_transfer (Oc : list Q) :
 Proof.
   apply bool_R_inv.
   apply (occfixb_R Q R QR NumQ NumR NumQR); auto using mdp_rel, pi_rel, list_R_map1.
+Qed.
+
+Theorem c02_tau_transfer (tau : list Q) :
+  @c02_tau Q NumQ mQ piQ tau = @c02_tau R NumR mR piR (map Q2R tau).
+Proof.
+  apply bool_R_inv.
+  apply (c02_tau_R Q R QR NumQ NumR NumQR); auto using mdp_rel, pi_rel, list_R_map1.
 Qed.
 
 (* Policy.to_tabular's model commutes with the embedding too (the functional-policy route
